@@ -647,6 +647,45 @@ def check_any(ctx, case):
             'mutated': check_mutated}[case['kind']](ctx, case)
 
 
+def run_atheris(ctx, fam, n):
+    from vlib import fuzzing
+    m = _pg()
+
+    def recheck(text):
+        out = []
+        try:
+            r = m['eval_qty'](text)
+        except m['UnitsParseError']:
+            return out
+        except (ZeroDivisionError, OverflowError):
+            return out
+        except Exception as e:
+            if 'complex' in str(e) or 'j)' in str(e):
+                return out
+            return [('fuzz:raises-%s' % type(e).__name__, '%r raises %s: %s' % (text, type(e).__name__, e))]
+        val, exps, kind = unpack(r)
+        if exps is None and not isinstance(val, complex):
+            out.append(('fuzz:result-type:%s' % kind, '%r -> %r' % (text, r)))
+            return out
+        try:
+            r2 = m['eval_qty']('(' + text + ')')
+            v2, e2, _ = unpack(r2)
+            if e2 != exps or not (v2 == val or (isinstance(v2, float) and abs(v2 - val) <= 1e-12 * abs(val)) or (v2 != v2 and val != val)):
+                out.append(('fuzz:parenthesised-value-differs', '%r -> %r but (%s) -> %r' % (text, r, text, r2)))
+        except m['UnitsParseError']:
+            out.append(('fuzz:parenthesised-expression-rejected', '%r accepted as %r but in parentheses rejected' % (text, r)))
+        except Exception:
+            pass
+        return out
+    fuzzing.campaign(ctx, 'c10', n, recheck, corpus=['kJ/mol', '8.314472 J/(mol K)', '1/(6.02214179*10^23) mol', 'm^(-2)', 'dag cm^3'], max_len=96)
+    ctx.begin('atheris', dict(kind='malformed', text='', form='empty'))
+    ctx.case(nontrivial=True, key=['atheris', ctx.shard], sample=dict(family='atheris', note='coverage-guided campaign, see histogram'), evals=0)
+
+
+def check_text(ctx, case):
+    return check_any(ctx, case) if case.get('kind') != 'text' else check_malformed(ctx, dict(kind='malformed', text=case['text'], form='fuzz'))
+
+
 FAMILIES = [
     Family('names', check_any, enumerate=enum_names),
     Family('names-history', check_any, enumerate=enum_names_history, sharded=False),
@@ -654,4 +693,5 @@ FAMILIES = [
     Family('conversions', check_any, strategy=lambda tier: conversion_case(), n=(4000, 100000)),
     Family('malformed', check_any, strategy=lambda tier: malformed_case(), n=(3000, 60000)),
     Family('mutated', check_any, strategy=lambda tier: mutated_case(), n=(4000, 150000)),
+    Family('atheris', check_text, stateful=run_atheris, n=(0, 16 * 400000)),
 ]
